@@ -358,7 +358,7 @@ def run(ctx):
     quick = ctx.tier == "quick"
     for role in ("server", "client"):
         for cfg in sorted(CONFIGS):
-            ctx.explore(("c07", role, cfg, ctx.tier), time_budget=None if quick else 420)
+            ctx.explore(("c07", role, cfg, ctx.tier), time_budget=None if quick else 240)
     jobs = []
     for client in (False, True):
         for i in range(len(corpus.valid_streams(client))):
